@@ -115,7 +115,11 @@ def remove_string_escapes(value: str) -> str:
     See Also:
         - https://github.com/openapi-generators/openapi-python-client/security/advisories/GHSA-9x4c-63pf-525f
     """
-    return value.replace("\\", r"\\").replace('"', r"\"").replace("\n", r"\n").replace("\r", r"\r")
+    value = value.replace("\\", r"\\").replace('"', r"\"").replace("\n", r"\n").replace("\r", r"\r")
+    # The other characters `str.splitlines` (and so Jinja's `indent` filter) treats as line breaks would split the literal
+    for char in "\x0b\x0c\x1c\x1d\x1e\x85\u2028\u2029":
+        value = value.replace(char, f"\\u{ord(char):04x}")
+    return value
 
 
 def get_content_type(content_type: str, config: Config) -> str | None:
